@@ -27,6 +27,7 @@ import (
 	"github.com/uber/kraken/lib/store"
 	"github.com/uber/kraken/lib/torrent/scheduler"
 	"github.com/uber/kraken/lib/torrent/scheduler/conn"
+	"github.com/uber/kraken/lib/torrent/scheduler/connstate"
 	"github.com/uber/kraken/lib/torrent/scheduler/dispatch"
 	"github.com/uber/kraken/lib/torrent/storage/agentstorage"
 	"github.com/uber/kraken/lib/torrent/storage/piecereader"
@@ -209,6 +210,7 @@ type Config struct {
 	PieceLen   int
 	SeederTTI  time.Duration
 	LeecherTTI time.Duration
+	ConnState  connstate.Config
 }
 
 func init() {
@@ -260,6 +262,7 @@ func New(cfg Config) (*H, error) {
 		ConnTTI:            1000 * time.Hour,
 		ConnTTL:            1000 * time.Hour,
 		Conn:               conn.ConfigFixture(),
+		ConnState:          cfg.ConnState,
 		TorrentLog:         log.Config{Disable: true},
 		Log:                log.Config{Disable: true},
 	}
